@@ -178,7 +178,7 @@ func main() {
 		res := report.New(name, *seed, *tier)
 		n := 500
 		if *tier == "thorough" {
-			n = 8000
+			n = 24000
 		}
 		if name == "sim-adversary" && *tier != "thorough" {
 			n = 1500
